@@ -25,10 +25,10 @@ def run(ctx):
     st = SPEC["status"]
     ctx.rule("C18-R1", "SessionRequest::try_from(Headers): Ok only under the five guards; one error per failing guard")
     fn = A.fn("<wtransport_proto::session::SessionRequest as std::convert::TryFrom<wtransport_proto::headers::Headers>>::try_from")
-    G = lambda k: r"^Headers::get\(&headers,'%s'\) is Some$" % k
-    EQ = lambda k, v: r"^!<impl PartialEq<&B> for &A>::ne\(&some\(Headers::get\(&headers,'%s'\)\),&\*'%s'\)$" % (k, v)
-    NE = lambda k, v: r"^<impl PartialEq<&B> for &A>::ne\(&some\(Headers::get\(&headers,'%s'\)\),&\*'%s'\)$" % (k, v)
-    MISS = lambda k: r"^Headers::get\(&headers,'%s'\) is None$" % k
+    G = lambda k: r"^Headers::get\(headers,'%s'\) ok$" % k
+    EQ = lambda k, v: r"^!<impl PartialEq<&B> for &A>::ne\(ok\(Headers::get\(headers,'%s'\)\),'%s'\)$" % (k, v)
+    NE = lambda k, v: r"^<impl PartialEq<&B> for &A>::ne\(ok\(Headers::get\(headers,'%s'\)\),'%s'\)$" % (k, v)
+    MISS = lambda k: r"^Headers::get\(headers,'%s'\) fails$" % k
     ps = SPEC["request_pseudo"]
     rows = [
         {"name": "accepted", "atoms": [G(":method"), EQ(":method", ps[":method"]), G(":scheme"), EQ(":scheme", ps[":scheme"]), G(":protocol"),
@@ -76,8 +76,8 @@ def run(ctx):
         ctx.check("C18-R2", "StatusCode::%s" % name, v == want, "StatusCode::%s is %d, expected %d" % (name, v, want))
     f = A.fn("wtransport_proto::ids::StatusCode::is_successful")
     ls = [path_sig(p)[1] for p in nonpanic(walk(f))]
-    ctx.check("C18-R2", "is_successful == [200,300)", ls == ["return Range::contains(&*Range{%d,%d},&self.0)" % (st["success_lo"], st["success_hi"])],
-              "StatusCode::is_successful is not `(200..300).contains(&self.0)`: %s" % ls, where(f))
+    ctx.check("C18-R2", "is_successful == [200,300)", ls == ["return Range::contains(Range{%d,%d},self.0)" % (st["success_lo"], st["success_hi"])],
+              "StatusCode::is_successful is not `(200..300).contains(self.0)`: %s" % ls, where(f))
     # StatusCode's field is private and no other constructor exists (who-may-construct)
     adt = A.adt("wtransport_proto::ids::StatusCode")
     fld = adt["variants"][0]["fields"][0]
@@ -85,10 +85,10 @@ def run(ctx):
     # response parsing: `:status` goes through str::parse::<StatusCode>
     f = A.fn("<wtransport_proto::session::SessionResponse as std::convert::TryFrom<wtransport_proto::headers::Headers>>::try_from")
     rows = [
-        {"name": "missing :status", "atoms": [r"^Headers::get\(&headers,':status'\) is None$"], "leaf": r"MissingStatusCode"},
-        {"name": "invalid :status", "atoms": [r"^<impl str>::parse\(&\*some\(Headers::get\(&headers,':status'\)\)\) fails$"], "leaf": r"^return Err\(from\(apply\(closure:"},
-        {"name": "valid :status", "atoms": [r"^<impl str>::parse\(&\*some\(Headers::get\(&headers,':status'\)\)\) ok$"],
-         "leaf": r"^return Result::Ok\(SessionResponse::with_status_code\(ok\(<impl str>::parse\(&\*some\(Headers::get\(&headers,':status'\)\)\)\)\)\)$"},
+        {"name": "missing :status", "atoms": [r"^Headers::get\(headers,':status'\) fails$"], "leaf": r"MissingStatusCode"},
+        {"name": "invalid :status", "atoms": [r"^<impl str>::parse\(ok\(Headers::get\(headers,':status'\)\)\) fails$"], "leaf": r"^return Result::Err\(HeadersParseError::InvalidStatusCode\)$"},
+        {"name": "valid :status", "atoms": [r"^<impl str>::parse\(ok\(Headers::get\(headers,':status'\)\)\) ok$"],
+         "leaf": r"^return Result::Ok\(SessionResponse::with_status_code\(ok\(<impl str>::parse\(ok\(Headers::get\(headers,':status'\)\)\)\)\)\)$"},
     ]
     ps_ = walk(f)
     match_table(ctx, "C18-R2", f, ps_, rows, "SessionResponse::try_from")
@@ -103,15 +103,15 @@ def run(ctx):
     ctx.check("C18-R3", "RESERVED_HEADERS", isinstance(mem, list) and sorted(mem) == sorted(SPEC["reserved_headers"]),
               "RESERVED_HEADERS is %s, expected %s" % (mem, SPEC["reserved_headers"]), c["at"]["sp"])
     f = A.fn("wtransport_proto::session::SessionRequest::insert")
-    ANY = r"<Iter<T> as Iterator>::any\(&<impl \[T\]>::iter\(&\*SessionRequest::RESERVED_HEADERS\),closure:SessionRequest::\{closure#0\}\)"
+    ANY = r"<Iter<T> as Iterator>::any\(<impl \[T\]>::iter\(SessionRequest::RESERVED_HEADERS\),closure:SessionRequest::\{closure#0\}\)"
     rows = [
         {"name": "reserved->rejected, map untouched", "atoms": [r"^%s$" % ANY], "not_events": [r"Headers::insert"], "leaf": r"^return Result::Err\(ReservedHeader\)$"},
-        {"name": "not reserved->inserted", "atoms": [r"^!%s$" % ANY], "events": [r"^Headers::insert\(&\*self\.0,ToString::to_string\(&key\),value\)$"], "leaf": r"^return Result::Ok\(\(\)\)$"},
+        {"name": "not reserved->inserted", "atoms": [r"^!%s$" % ANY], "events": [r"^Headers::insert\(self\.0,ToString::to_string\(key\),value\)$"], "leaf": r"^return Result::Ok\(\(\)\)$"},
     ]
     match_table(ctx, "C18-R3", f, walk(f), rows, "SessionRequest::insert")
     cl = A.find1(r"^wtransport_proto::session::SessionRequest::insert::\{closure#0\}$")
     ls = [path_sig(p)[1] for p in nonpanic(walk(cl))]
-    ctx.check("C18-R3", "reserved predicate is equality with the key", len(ls) == 1 and re.search(r"PartialEq.*::eq\(&\*?rh,&&?\*?key\)|::eq\(&\*rh,&&\*_1\.0\)|::eq\(", ls[0]) is not None,
+    ctx.check("C18-R3", "reserved predicate is equality with the key", len(ls) == 1 and re.search(r"PartialEq.*::eq\(rh,key\)|::eq\(rh,_1\.0\)|::eq\(", ls[0]) is not None,
               "reserved-name predicate is not `rh == &key`: %s" % ls, where(cl))
 
     ctx.rule("C18-R4", "SessionRequest::new: https guard, authority = url.authority(), path = path + ?query; fixed pseudo-headers")
@@ -120,8 +120,8 @@ def run(ctx):
         ps_ = nonpanic(walk(f))
         rej = [p for p in ps_ if "SchemeNotHttps" in path_sig(p)[1]]
         acc = [p for p in ps_ if path_sig(p)[1].startswith("return Result::Ok(SessionRequest(")]
-        ok1 = bool(rej) and all(any(re.search(r"^<impl PartialEq<&B> for &A>::ne\(&Url::scheme\(.*\),&\*'https'\)$", a) for a in path_sig(p)[0]) for p in rej)
-        ok2 = bool(acc) and all(any(re.search(r"^!<impl PartialEq<&B> for &A>::ne\(&Url::scheme\(.*\),&\*'https'\)$", a) for a in path_sig(p)[0]) for p in acc)
+        ok1 = bool(rej) and all(any(re.search(r"^<impl PartialEq<&B> for &A>::ne\(Url::scheme\(.*\),'https'\)$", a) for a in path_sig(p)[0]) for p in rej)
+        ok2 = bool(acc) and all(any(re.search(r"^!<impl PartialEq<&B> for &A>::ne\(Url::scheme\(.*\),'https'\)$", a) for a in path_sig(p)[0]) for p in acc)
     ctx.check("C18-R4", "scheme guard", ok1 and ok2, "SessionRequest::new does not gate on url.scheme() == \"https\"", where(f))
     evs = [e for p in acc for e in event_strs(p)]
     lits = set()
